@@ -58,7 +58,7 @@ TraceInit ==
   /\ phase = "run" /\ lastUser = <<EmptyTree, EmptyTree>> /\ corrupt = {}
   /\ base0 = EmptyTree /\ kase = [kind |-> "none"] /\ nres = 0 /\ pfault = 0
   /\ notif = <<>> /\ cur = [oids |-> <<0, 0>>, neg |-> 0] /\ aging = 0 /\ walked = FALSE
-  /\ xf = <<>> /\ runA = [quiet |-> <<>>] /\ sm = [req |-> {}, made |-> {}, un |-> <<>>]
+  /\ xf = <<>> /\ runA = [quiet |-> <<>>] /\ sm = [req |-> {}, made |-> {}, un |-> <<>>, pre |-> <<EmptyTree, EmptyTree>>]
 
 \* ---- the synchronised starting point ----------------------------------------------------------
 TBase ==
@@ -248,26 +248,30 @@ DirsOf(t)  == {p \in DOMAIN t : t[p] = DIR}
 AutoMatch(p) == p[Len(p)] \in SeqSet(kase.auto)
 SmartQuiet(o) ==
   /\ Check(DirsOf(o[1]) = DirsOf(o[2]), "FoldersMirrored")
-  /\ Check(\A p \in FilesOf(o[1]) : Has(o[2], p) /\ o[2][p] = o[1][p], "LocalFilesInSync")
+  /\ Check(\A p \in FilesOf(o[1]) : HasConflicted(p) \/ (Has(o[2], p) /\ o[2][p] = o[1][p]), "LocalFilesInSync")
   /\ Check(\A p \in sm.req : (Has(o[2], p) /\ o[2][p] # DIR) => (Has(o[1], p) /\ o[1][p] = o[2][p]), "RequestedDownloaded")
   /\ Check(\A p \in FilesOf(o[2]) : (p \notin sm.req /\ p \notin sm.made /\ ~AutoMatch(p)) => ~Has(o[1], p), "UnrequestedStayRemote")
 TReq ==
-  /\ Ev.ev = "Req"
-  /\ sm' = IF Ev.ok = 1 THEN [sm EXCEPT !.req = @ \cup {Ev.path}] ELSE sm
-  /\ tr' = Obs(Ev.post)
+  /\ Ev.ev \in {"Req", "ReqEnd"}
+  /\ IF Ev.ev = "Req"
+       THEN sm' = [sm EXCEPT !.req = @ \cup {Ev.path}] /\ tr' = tr
+       ELSE /\ sm' = IF Ev.ok = 1 THEN sm ELSE [sm EXCEPT !.req = @ \ {Ev.path}]      \* a refused request (unknown file) is no request
+            /\ tr' = Obs(Ev.post)
   /\ UNCHANGED <<phase, lastUser, corrupt, base0, kase, nres, pfault, notif, cur, aging, walked, xf, runA>> /\ LedgerFrame
   /\ Advance
 TUnreq ==
   /\ Ev.ev \in {"Unreq", "UnreqEnd"}
   /\ IF Ev.ev = "Unreq"
-       THEN /\ sm' = [sm EXCEPT !.un = Ev.path, !.req = @ \ {Ev.path}]
+       THEN /\ sm' = [sm EXCEPT !.un = Ev.path, !.req = @ \ {Ev.path}, !.pre = tr]
             /\ tr' = tr
        ELSE LET o == Obs(Ev.post)
                 p == sm.un
-                before == tr
-            IN /\ Check(Has(o[2], p) /\ o[2][p] # DIR, "UnsyncKeepsRemote")
+                pre == sm.pre
+            IN /\ Check(Has(pre[2], p) => (Has(o[2], p) /\ o[2][p] # DIR), "UnsyncKeepsRemote")
                /\ Check(~Has(o[1], p), "UnsyncRemovesLocal")
-               /\ Check(IF Has(lastUser[1], p) /\ Has(o[2], p) THEN o[2][p] = lastUser[1][p] ELSE TRUE, "UnsyncUploadsNewerFirst")
+               \* a local edit the remote had not received yet must be there now
+               /\ Check(IF p \in sm.made /\ Has(pre[1], p) /\ Has(pre[2], p) /\ pre[1][p] # pre[2][p]
+                        THEN Has(o[2], p) /\ o[2][p] = pre[1][p] ELSE TRUE, "UnsyncUploadsNewerFirst")
                /\ sm' = [sm EXCEPT !.un = <<>>, !.made = @ \ {p}]
                /\ tr' = o
   /\ UNCHANGED <<phase, corrupt, base0, kase, nres, pfault, notif, cur, aging, walked, xf, runA>> /\ LedgerFrame
